@@ -47,6 +47,10 @@ def keys(rnd, tier):
     out.append(("local-random", '<svg><config use-local-styles="true"/><rect wh="{{1 + random()}}" text="{{randint(1, 6)}}" class="d-fill-red"/>'
                                 '<circle cxy="9 9" r="{{random()}}"/></svg>', {"seed": 5}))
     out.append(("local-random", '<svg><rect wh="{{1 + random()}}" class="d-softshadow"/><config use-local-styles="true"/><rect xy="5 5" wh="{{random()}}"/></svg>', {}))
+    # local styles switched on and off again inside the document: off is off (no random root id)
+    out.append(("toggle", '<svg><config use-local-styles="true"/><rect wh="2" class="d-fill-red"/><config use-local-styles="false"/>'
+                          '<rect xy="5 5" wh="1" class="d-softshadow"/></svg>', {}))
+    out.append(("toggle", '<svg><config use-local-styles="true"/><config use-local-styles="false"/><rect wh="2" text="t"/></svg>', {"seed": 2}))
     for k in range(6 if tier == "quick" else 20):
         n = rnd.randint(3, 9)
         body = "".join(f'<rect id="e{i}" xy="#missing{i}|h" wh="{{{{1 +}}}}"/>' if i % 2 else f'<rect xy="#nowhere{i}@tl" wh="2"/>' for i in range(n))
